@@ -6,6 +6,7 @@ import (
 	"math/rand/v2"
 	"reflect"
 	"sync"
+	"sync/atomic"
 	"time"
 	"unsafe"
 
@@ -347,9 +348,62 @@ func c17Recursive(c *core.Ctx, idx int) {
 	rec.NonTrivial(core.Hash64("recursive", order, fmt.Sprint(idx)))
 }
 
+// c17RegisterRace: a registration for a (type, tag) key made at the very moment another goroutine
+// uses that key for the first time. Whichever comes first, once both calls have returned the
+// registration is what the instance hands out for the key.
+func c17RegisterRace(c *core.Ctx, idx int) {
+	rec := c.Rec
+	r := c.Rand(idx)
+	p := &plenc.Plenc{ProtoCompatibleArrays: r.IntN(2) == 0}
+	p.RegisterDefaultCodecs()
+	typs := []reflect.Type{reflect.TypeOf([]int(nil)), markedT, markStrT, reflect.TypeOf(map[string]int(nil)), reflect.PointerTo(markedT)}
+	rounds := 1500
+	if c.Lane == "race" {
+		rounds = 300
+	}
+	for round := 0; round < rounds; round++ {
+		t := typs[round%len(typs)]
+		tag := fmt.Sprintf("r%d", round)
+		mc := markerCodec{id: byte(round), typ: t, size: uintptr(round)}
+		var spin atomic.Int32
+		var wg sync.WaitGroup
+		gate := make(chan struct{})
+		wg.Add(2)
+		go func() {
+			defer wg.Done()
+			<-gate
+			core.Guard(func() { p.CodecForTypeWithTag(t, tag) })
+		}()
+		go func() {
+			defer wg.Done()
+			<-gate
+			for d := 0; d < (round*7)%257; d++ {
+				spin.Add(1)
+			}
+			p.RegisterCodecWithTag(t, tag, mc)
+		}()
+		close(gate)
+		wg.Wait()
+		var got plenccodec.Codec
+		var err error
+		pn := core.Guard(func() { got, err = p.CodecForTypeWithTag(t, tag) })
+		rec.Eval(1)
+		if g, ok := got.(markerCodec); pn != "" || err != nil || !ok || g.size != uintptr(round) {
+			rec.Violation("registration-lost", fmt.Sprintf("RegisterCodecWithTag(%s, %q) returned while another goroutine was using the key for the first time; afterwards the instance hands out %T for the key, not the registered codec (round %d) (%v %s)", t, tag, got, round, err, trunc1(pn)), nil)
+			return
+		}
+	}
+	rec.Count("registrations_racing_with_first_use", rounds)
+	rec.NonTrivial(core.Hash64("regrace", fmt.Sprint(idx)))
+}
+
 func c17Case(c *core.Ctx, idx int) {
 	if c.Lane == "firstuse" {
 		c17FirstUse(c, idx)
+		return
+	}
+	if idx%11 == 5 {
+		c17RegisterRace(c, idx)
 		return
 	}
 	if idx%13 == 7 {
